@@ -61,7 +61,11 @@ class Check:
         self.notes = []
         self.cov = {}
         self.log_dir = os.path.join(CACHE, "logs"); os.makedirs(self.log_dir, exist_ok=True)
+        self.phases = {}; self._pt = time.time()
         os.makedirs(REPLAYS, exist_ok=True)
+
+    def phase(self, name):
+        now = time.time(); self.phases[name] = round(self.phases.get(name, 0) + now - self._pt, 1); self._pt = now
 
     # ---------- 1. translator ----------
     def gen(self):
@@ -222,6 +226,7 @@ class Check:
     def finish(self, extra_cov=None, assumptions=None):
         cov = self.cov
         if extra_cov: cov.update(extra_cov)
+        self.phase("finish"); cov["phase_wall_s"] = self.phases
         cov.setdefault("trusted_base", TRUSTED_BASE + self.s.get("trusted_extra", []))
         kf = load_known(self.id)
         for cls, what in kf.items():
@@ -270,15 +275,18 @@ def standard_main(spec, argv):
     if replay:
         r = json.load(open(replay)); c.seed = r.get("seed", c.seed); c.tier = r.get("tier", c.tier)
     if c.gen(): c.proofs()
+    c.phase("proofs")
     total = distinct = 0; samples = []; dist = {}
     for h in spec.get("harness", []):
         n = h["n"][c.tier]
         hargs = ["--n", str(n)] + h.get("args", [])
-        if not c.build_harness([h["bin"]], release=h.get("release", False)): continue
+        ok = c.build_harness([h["bin"]], release=h.get("release", False)); c.phase("cargo")
+        if not ok: continue
         outdir = os.path.join(CACHE, "cases", c.id + "-" + h["bin"])
         summ = c.run_harness(h["bin"], hargs, outdir, release=h.get("release", False))
+        c.phase("harness")
         if summ is None: continue
-        verdicts = c.eval_shards(outdir)
+        verdicts = c.eval_shards(outdir); c.phase("coq-eval")
         if len(verdicts) != summ["total"]:
             c.proof_break("correspondence-eval", f"{h['bin']}: {len(verdicts)} verdicts for {summ['total']} cases")
         c.classify(verdicts, summ, h["bin"], hargs, h.get("known_bits", {}))
